@@ -38,6 +38,7 @@ pub struct Batch {
 /// Run one case of a scenario (sets the per-case transport style first).
 pub fn run_case(run: fn(&Case, bool) -> RunOut, case: &Case, trace: bool) -> RunOut {
     crate::sim::READER_STYLE.with(|s| s.set(case.reader_style));
+    crate::sim::WRITER_STYLE.with(|s| s.set(case.writer_style));
     // a panic that escapes the scenario's own guarded library calls (a constructor, accessor or
     // Debug impl of the library panicking on a value) is a violation, not a dead worker
     match crate::fe::guarded(|| run(case, trace)) {
